@@ -716,6 +716,28 @@ theorem block_loop_pos (fuel : Nat) :
       obtain ⟨rfl, _, _⟩ := h
       exact Nat.le_refl _
 
+/-- where `Pos` lies relative to the boundary state the token was lexed from: at it, or behind the
+    comment opener (`#`: one byte, `/*`: two — also for the error token of an unterminated comment) -/
+def OffOK (id tpos lpos : Nat) : Prop :=
+  (id = tPOSTCOMMENT ∧ tpos = lpos + 1) ∨ ((id = tPRECOMMENT ∨ id = tERROR) ∧ tpos = lpos + 2) ∨ tpos = lpos
+
+/-- where the phase ended, for the tokens whose value is their source text: directly behind it
+    (block comment: behind the closing `*/`) -/
+def EndOK (id tpos len rpos : Nat) : Prop :=
+  (id = tPOSTCOMMENT → rpos = tpos + len) ∧ (id = tPRECOMMENT → rpos = tpos + len + 2) ∧
+  (7 ≤ id → rpos = tpos + len)
+
+theorem EndOK.other {id tpos len rpos : Nat} (h1 : id ≠ tPOSTCOMMENT) (h2 : id ≠ tPRECOMMENT) (h3 : ¬ 7 ≤ id) :
+    EndOK id tpos len rpos :=
+  ⟨fun h => absurd h h1, fun h => absurd h h2, fun h => absurd h h3⟩
+
+theorem endOK_error {tpos len rpos : Nat} : EndOK tERROR tpos len rpos :=
+  EndOK.other (by decide) (by decide) (by decide)
+theorem endOK_string {tpos len rpos : Nat} : EndOK tSTRING tpos len rpos :=
+  EndOK.other (by decide) (by decide) (by decide)
+theorem endOK_number {tpos len rpos : Nat} : EndOK tNUMBER tpos len rpos :=
+  EndOK.other (by decide) (by decide) (by decide)
+
 /-- **what a token phase does to the token list and the position**: exactly one token is pushed;
     the position stays inside the input; a phase that continues has moved forward; a phase that
     stops has pushed an error token or stands at the end of the input. -/
@@ -724,7 +746,8 @@ def Pushed (l : L) (res : L × Next) : Prop :=
     (res.2 = Next.token → t.pos < res.1.pos) ∧
     (res.2 = Next.stop → t.id = tERROR ∨ (res.1.inp.size ≤ res.1.pos ∧ Inv res.1)) ∧
     (t.id ≠ tEOF ∧ l.pos ≤ t.pos ∧
-      (t.id = tPOSTCOMMENT ∨ t.id = tPRECOMMENT ∨ t.id = tERROR ∨ t.pos = l.pos))
+      (t.id = tPOSTCOMMENT ∨ t.id = tPRECOMMENT ∨ t.id = tERROR ∨ t.pos = l.pos) ∧
+      OffOK t.id t.pos l.pos ∧ EndOK t.id t.pos t.val.length res.1.pos)
 
 theorem emit_toks (l : L) (id : Nat) (val : List Nat) (ident ae : Bool) :
     (l.emit id val ident ae).toks =
@@ -732,8 +755,8 @@ theorem emit_toks (l : L) (id : Nat) (val : List Nat) (ident ae : Bool) :
 
 theorem Pushed.congr {l l' : L} {res : L × Next} (h : Pushed l' res) (ht : l'.toks = l.toks) (hp : l'.pos = l.pos) :
     Pushed l res := by
-  obtain ⟨t, a, b, c, d, e1, e2, e3⟩ := h
-  exact ⟨t, by rw [a, ht], b, c, d, e1, by rw [← hp]; exact e2, by rw [← hp]; exact e3⟩
+  obtain ⟨t, a, b, c, d, e1, e2, e3, e4, e5⟩ := h
+  exact ⟨t, by rw [a, ht], b, c, d, e1, by rw [← hp]; exact e2, by rw [← hp]; exact e3, by rw [← hp]; exact e4, e5⟩
 
 /-- tracked loop of the string lexer: the bookkeeping pair stays true; on exit the pending rune
     is the end token -/
@@ -768,7 +791,7 @@ theorem value_loop (ae : Bool) (endTok : Option Nat) (T : List Tok) (fuel : Nat)
 theorem block_loop (T : List Tok) (fuel : Nat) :
     ∀ (l : L) (r : Option Nat) (a b p : Nat) (l' : L) (a' b' : Nat),
     Pend l r p → Tr l.inp T p a b → blockLoop fuel l r a b = some (l', a', b') →
-    l'.core = l.core ∧ l'.peek 1 = some 47 ∧ ∃ p', Pend l' (some 42) p' ∧ Tr l.inp T p' a' b' := by
+    l'.core = l.core ∧ l'.peek 1 = some 47 ∧ ∃ p', Pend l' (some 42) p' ∧ Tr l.inp T p' a' b' ∧ p ≤ p' := by
   induction fuel with
   | zero => intro l r a b p l' a' b' _ _ h; simp [blockLoop] at h
   | succ n ih =>
@@ -782,14 +805,15 @@ theorem block_loop (T : List Tok) (fuel : Nat) :
         obtain ⟨c1, _, _, _, _⟩ := core_fields nc
         have := ih _ _ _ _ l.pos l' a' b' np (by rw [c1]; exact htr.step f1 f3 f4) h
         rw [c1] at this
-        exact ⟨this.1.trans nc, this.2⟩
+        obtain ⟨t1, t2, p', t3, t4, t5⟩ := this
+        exact ⟨t1.trans nc, t2, p', t3, t4, Nat.le_trans f1 t5⟩
     · rename_i hcond
       simp only [Option.some.injEq, Prod.mk.injEq] at h
       obtain ⟨rfl, rfl, rfl⟩ := h
       simp only [Bool.or_eq_true, bne_iff_ne, ne_eq, not_or, Decidable.not_not] at hcond
       obtain ⟨hr, hpk⟩ := hcond
       subst hr
-      exact ⟨rfl, hpk, p, hp, htr⟩
+      exact ⟨rfl, hpk, p, hp, htr, Nat.le_refl _⟩
 
 theorem hash_loop (fuel : Nat) : ∀ (l0 l : L) (r : Option Nat), Scan l0 l r →
     (r = none → l.inp.size ≤ l.pos) → (r ≠ none → l.inp.size - l.pos < fuel) →
@@ -897,7 +921,8 @@ theorem lexValue_inv (l : L) (h : Inv l) (hr : Ready l) (hne : l.peek 1 ≠ some
     refine ⟨?_, fun h' => by simp at h', show (lexValueOpen l).1.next.1.inp = l.inp from n1.trans o1,
       _, (emit_toks _ tERROR _ false false).trans (congrArg (fun a => Array.push a _) (n5.trans o5)),
       Nat.le_refl _, fun h' => by simp at h', fun _ => Or.inl rfl,
-      (by decide : tERROR ≠ tEOF), Nat.le_of_eq (n4.trans o4).symm, Or.inr (Or.inr (Or.inl rfl))⟩
+      (by decide : tERROR ≠ tEOF), Nat.le_of_eq (n4.trans o4).symm, Or.inr (Or.inr (Or.inl rfl)),
+      Or.inr (Or.inr (n4.trans o4)), endOK_error⟩
     apply emit_allOK
     · intro t ht; simp only [] at ht ⊢; rw [n5, o5] at ht; rw [n1, n5, o1, o5]; exact h.ok t ht
     · right; simp only []; rw [n1, n2, n3, n4, n5, o1, o2, o3, o4, o5]; exact h.tr
@@ -935,19 +960,22 @@ theorem lexValue_inv (l : L) (h : Inv l) (hr : Ready l) (hne : l.peek 1 ≠ some
           show l'.inp = l.inp from c1.trans (n1.trans o1),
           _, (emit_toks l' tERROR _ false false).trans (congrArg (fun a => Array.push a _) hT'),
           hle', fun h' => by simp at h', fun _ => Or.inl rfl,
-          (by decide : tERROR ≠ tEOF), Nat.le_of_eq hS'.symm, Or.inr (Or.inr (Or.inl rfl))⟩
+          (by decide : tERROR ≠ tEOF), Nat.le_of_eq hS'.symm, Or.inr (Or.inr (Or.inl rfl)),
+          Or.inr (Or.inr hS'), endOK_error⟩
       · exact ⟨(emit_phase l' _ _ _ _ a' b' hok' hst' hle' hpos' (Or.inr (hs' _ (Or.inl rfl) _))).ok,
           fun _ => emit_phase l' _ _ _ _ a' b' hok' hst' hle' hpos' (Or.inr (hs' _ (Or.inl rfl) _)),
           show l'.inp = l.inp from c1.trans (n1.trans o1),
           _, (emit_toks l' tSTRING _ false true).trans (congrArg (fun a => Array.push a _) hT'),
           hle', fun _ => hstrict', fun h' => by simp at h',
-          (by decide : tSTRING ≠ tEOF), Nat.le_of_eq hS'.symm, Or.inr (Or.inr (Or.inr hS'))⟩
+          (by decide : tSTRING ≠ tEOF), Nat.le_of_eq hS'.symm, Or.inr (Or.inr (Or.inr hS')),
+          Or.inr (Or.inr hS'), endOK_string⟩
     · exact ⟨(emit_phase l' _ _ _ _ a' b' hok' hst' hle' hpos' (Or.inr (hs' _ (Or.inl rfl) _))).ok,
         fun _ => emit_phase l' _ _ _ _ a' b' hok' hst' hle' hpos' (Or.inr (hs' _ (Or.inl rfl) _)),
         show l'.inp = l.inp from c1.trans (n1.trans o1),
         _, (emit_toks l' tSTRING _ false false).trans (congrArg (fun a => Array.push a _) hT'),
         hle', fun _ => hstrict', fun h' => by simp at h',
-        (by decide : tSTRING ≠ tEOF), Nat.le_of_eq hS'.symm, Or.inr (Or.inr (Or.inr hS'))⟩
+        (by decide : tSTRING ≠ tEOF), Nat.le_of_eq hS'.symm, Or.inr (Or.inr (Or.inr hS')),
+        Or.inr (Or.inr hS'), endOK_string⟩
 
 theorem slice_length (l : L) (a b : Nat) (hab : a ≤ b) (hb : b ≤ l.inp.size) : (l.slice a b).length = b - a := by
   simp [L.slice]; omega
@@ -1041,7 +1069,13 @@ theorem hash_inv (l la : L) (h : Inv l) (hp : Pend la (some 35) l.pos) (hc : la.
         exact emit_phase R tPOSTCOMMENT _ false false R.line R.lastnl hok hst rle hab (Or.inr hshape)
       exact ⟨hem, fun h' => by simp at h', show R.inp = l.inp from c1,
         _, htoks, rle, fun h' => by simp at h', fun _ => Or.inr ⟨rsz, hinvEnd⟩,
-        (by decide : tPOSTCOMMENT ≠ tEOF), (by show l.pos ≤ R.start; rw [c4]; exact f1), Or.inl rfl⟩
+        (by decide : tPOSTCOMMENT ≠ tEOF), (by show l.pos ≤ R.start; rw [c4]; exact f1), Or.inl rfl,
+        Or.inl ⟨rfl, by show R.start = l.pos + 1; rw [c4]; exact hap⟩,
+        ⟨fun _ => by
+            show R.pos = R.start + (R.slice R.start R.pos).length
+            have hge : R.start ≤ R.pos := by rw [c4]; rw [c1, ← a1] at rsz; omega
+            rw [slice_length R _ _ hge rle]; omega,
+          fun h => absurd h (by decide : tPOSTCOMMENT ≠ tPRECOMMENT), fun h => absurd h (by decide : ¬ 7 ≤ tPOSTCOMMENT)⟩⟩
     · rw [hr0] at rr; simp at rr
   · rename_i hr
     rcases rr with ⟨rr, _⟩ | ⟨_, p, hpp, g1, g2⟩
@@ -1056,7 +1090,13 @@ theorem hash_inv (l la : L) (h : Inv l) (hp : Pend la (some 35) l.pos) (hc : la.
       obtain ⟨e1, e2⟩ := nlBefore_noNl' g1 g2
       refine ⟨by simpa [AllOK, L.hashEnd] using hem, fun _ => ?_, show R.inp = l.inp from c1,
         _, htoks, rle, fun _ => by show R.start < R.pos; rw [c4]; omega, fun h' => by simp at h',
-        (by decide : tPOSTCOMMENT ≠ tEOF), (by show l.pos ≤ R.start; rw [c4]; exact f1), Or.inl rfl⟩
+        (by decide : tPOSTCOMMENT ≠ tEOF), (by show l.pos ≤ R.start; rw [c4]; exact f1), Or.inl rfl,
+        Or.inl ⟨rfl, by show R.start = l.pos + 1; rw [c4]; exact hap⟩,
+        ⟨fun _ => by
+            show R.pos = R.start + (R.slice R.start R.pos).length
+            have hge : R.start ≤ R.pos := by rw [c4]; omega
+            rw [slice_length R _ _ hge rle]; omega,
+          fun h => absurd h (by decide : tPOSTCOMMENT ≠ tPRECOMMENT), fun h => absurd h (by decide : ¬ 7 ≤ tPOSTCOMMENT)⟩⟩
       refine ⟨by simpa [L.hashEnd, L.emit, c1] using q2, ?_, by simpa [AllOK, L.hashEnd] using hem⟩
       have hlen := slice_length R la.pos (p + 1) (by omega) (by rw [c1]; omega)
       have hlast := slice_getLast R la.pos (p + 1) (by omega) (by rw [c1]; omega)
@@ -1117,7 +1157,12 @@ theorem block_inv (l la : L) (h : Inv l) (hb : Blk l la) (hpk : la.peek 1 = some
       Nat.le_refl _, fun h' => by simp at h', fun _ => Or.inl rfl,
       (by decide : tERROR ≠ tEOF),
       (by show l.pos ≤ ({ (la.next).1 with start := (la.next).1.pos } : L).next.1.start; rw [n4]; exact hlb.ge),
-      Or.inr (Or.inr (Or.inl rfl))⟩
+      Or.inr (Or.inr (Or.inl rfl)),
+      Or.inr (Or.inl ⟨Or.inr rfl, by
+        show ({ (la.next).1 with start := (la.next).1.pos } : L).next.1.start = l.pos + 2
+        rw [n4]; show (la.next).1.pos = l.pos + 2
+        have := b2p (by decide); have := h47.2; omega⟩),
+      endOK_error⟩
     apply emit_allOK
     · intro t ht; simp only [] at ht ⊢; rw [n5, a5] at ht; rw [n1, n5, a1, a5]; exact h.ok t ht
     · right; simp only []; rw [n1, n2, n3, n4, n5, a1, a2, a3, a5]; exact htr0
@@ -1125,7 +1170,7 @@ theorem block_inv (l la : L) (h : Inv l) (hb : Blk l la) (hpk : la.peek 1 = some
       exact ⟨hstartE, by unfold TextOK; simp⟩
   | some x =>
     obtain ⟨l', a', b'⟩ := x
-    obtain ⟨lc, hpk', p', hp', htr'⟩ := block_loop l.toks.toList _ _ _ _ _ _ _ _ _ np
+    obtain ⟨lc, hpk', p', hp', htr', hpp'⟩ := block_loop l.toks.toList _ _ _ _ _ _ _ _ _ np
       (by rw [n1, n2, n3, a1, a2, a3]; exact htr0) hres
     obtain ⟨c1, c2, c3, c4, c5⟩ := core_fields lc
     rw [n1, a1] at htr'
@@ -1189,7 +1234,19 @@ theorem block_inv (l la : L) (h : Inv l) (hb : Blk l la) (hpk : la.peek 1 = some
         have h2 : (la.next).1.pos ≤ l'.pos := Nat.le_trans hnp hlpos
         rw [hlc, hS']; omega,
       fun h' => by simp at h',
-      (by decide : tPRECOMMENT ≠ tEOF), (by show l.pos ≤ l'.start; rw [hS']; exact hlb.ge), Or.inr (Or.inl rfl)⟩
+      (by decide : tPRECOMMENT ≠ tEOF), (by show l.pos ≤ l'.start; rw [hS']; exact hlb.ge), Or.inr (Or.inl rfl),
+      Or.inr (Or.inl ⟨Or.inl rfl, by
+        show l'.start = l.pos + 2
+        rw [hS']; have := b2p (by decide); have := h47.2; omega⟩),
+      ⟨fun h => absurd h (by decide : tPRECOMMENT ≠ tPOSTCOMMENT),
+        fun _ => by
+          show (l'.emit tPRECOMMENT (l'.slice l'.start (l'.pos - 1)) false false).next.1.pos =
+            l'.start + (l'.slice l'.start (l'.pos - 1)).length + 2
+          obtain ⟨hq1, _⟩ := hp'.ascii (by decide)
+          have hpp2 : (la.next).1.pos ≤ p' := hpp'
+          have hge2 : l'.start ≤ l'.pos - 1 := by rw [hS']; omega
+          rw [hlc, slice_length l' _ _ hge2 (by omega)]; omega,
+        fun h => absurd h (by decide : ¬ 7 ≤ tPRECOMMENT)⟩⟩
 
 theorem lexComment_inv (l : L) (h : Inv l)
     (hcase : l.peek 1 = some 35 ∨ (l.peek 1 = some 47 ∧ l.peek 2 = some 42)) :
@@ -1312,6 +1369,11 @@ theorem lexWordText_inv (l l2 : L) (h : Inv l) (hr : Ready l) (hb : Blk { l with
       intro v hv; rw [c1, c4] at hv; exact hv
     exact key _ (textOK_word (lexTextBlock l2) id (lexTextBlock l2).start (lexTextBlock l2).pos hid
       (by rw [c4, c1]; exact h.le) b3.le hne)
+  -- the phase ends directly behind the word
+  have hwend : (lexTextBlock l2).pos = (lexTextBlock l2).start +
+      ((lexTextBlock l2).slice (lexTextBlock l2).start (lexTextBlock l2).pos).length := by
+    have hge : (lexTextBlock l2).start ≤ (lexTextBlock l2).pos := by rw [c4]; exact b3.ge
+    rw [slice_length _ _ _ hge b3.le]; omega
   simp only [lexWordText]
   split
   · rename_i t hlook
@@ -1325,12 +1387,16 @@ theorem lexWordText_inv (l l2 : L) (h : Inv l) (hr : Ready l) (hb : Blk { l with
         (Or.inr ⟨hstart t (Or.inl (by omega)), htext t (by omega) hne⟩)
       exact ⟨i1.ok, fun _ => i1, i2, _, i3, b3.le,
         fun _ => by show (lexTextBlock l2).start < (lexTextBlock l2).pos; rw [c4]; exact hprog hne,
-        fun h' => by simp at h', htne, Nat.le_of_eq c4.symm, Or.inr (Or.inr (Or.inr c4))⟩
+        fun h' => by simp at h', htne, Nat.le_of_eq c4.symm, Or.inr (Or.inr (Or.inr c4)),
+        Or.inr (Or.inr c4),
+        ⟨fun h => absurd h (by simp only [tPOSTCOMMENT]; omega), fun h => absurd h (by simp only [tPRECOMMENT]; omega),
+          fun _ => hwend⟩⟩
   · split
     · obtain ⟨i1, i2, i3⟩ := blk_emit l _ h b3 tERROR (str "Cannot parse identifier") false false
         (Or.inr ⟨hstart tERROR (Or.inr rfl), by unfold TextOK; simp⟩)
       exact ⟨i1.ok, fun h' => by simp at h', i2, _, i3, b3.le, fun h' => by simp at h', fun _ => Or.inl rfl,
-        (by decide : tERROR ≠ tEOF), Nat.le_of_eq c4.symm, Or.inr (Or.inr (Or.inl rfl))⟩
+        (by decide : tERROR ≠ tEOF), Nat.le_of_eq c4.symm, Or.inr (Or.inr (Or.inl rfl)),
+        Or.inr (Or.inr c4), endOK_error⟩
     · rename_i hnp
       have hname : namePattern (lowerGo ((lexTextBlock l2).slice (lexTextBlock l2).start (lexTextBlock l2).pos)) = true := by
         simpa using hnp
@@ -1342,7 +1408,10 @@ theorem lexWordText_inv (l l2 : L) (h : Inv l) (hr : Ready l) (hb : Blk { l with
         (Or.inr ⟨hstart tIDENTIFIER (Or.inl (by decide)), htext tIDENTIFIER (by decide) hne⟩)
       exact ⟨i1.ok, fun _ => i1, i2, _, i3, b3.le,
         fun _ => by show (lexTextBlock l2).start < (lexTextBlock l2).pos; rw [c4]; exact hprog hne,
-        fun h' => by simp at h', (by decide : tIDENTIFIER ≠ tEOF), Nat.le_of_eq c4.symm, Or.inr (Or.inr (Or.inr c4))⟩
+        fun h' => by simp at h', (by decide : tIDENTIFIER ≠ tEOF), Nat.le_of_eq c4.symm, Or.inr (Or.inr (Or.inr c4)),
+        Or.inr (Or.inr c4),
+        ⟨fun h => absurd h (by decide : tIDENTIFIER ≠ tPOSTCOMMENT), fun h => absurd h (by decide : tIDENTIFIER ≠ tPRECOMMENT),
+          fun _ => hwend⟩⟩
 
 theorem lexWord_inv (l : L) (h : Inv l) (hr : Ready l) :
     AllOK (lexWord { l with start := l.pos }).1 ∧
@@ -1386,7 +1455,8 @@ theorem lexWord_inv (l : L) (h : Inv l) (hr : Ready l) :
       fun _ => by
         show (lexNumberBlock { l with start := l.pos }).start < (lexNumberBlock { l with start := l.pos }).pos
         omega,
-      fun h' => by simp at h', (by decide : tNUMBER ≠ tEOF), Nat.le_of_eq c4.symm, Or.inr (Or.inr (Or.inr c4))⟩
+      fun h' => by simp at h', (by decide : tNUMBER ≠ tEOF), Nat.le_of_eq c4.symm, Or.inr (Or.inr (Or.inr c4)),
+      Or.inr (Or.inr c4), endOK_number⟩
   · apply lexWordText_inv l _ h hr
     obtain ⟨c1, c2, c3, c4, c5⟩ := core_fields b1.core
     simp only [] at c4
